@@ -400,3 +400,122 @@ func ruleOperandImmutable(c *Ctx) {
 	c.Floor("big.Int mutator calls in pkg/vm", nmut, 15)
 	c.Floor("operand-holding locals", nsrc, 30)
 }
+
+// clone-supersedes: an item that is about to be stored into a compound is replaced by its clone if it is a Struct
+// (`c, isStruct := cloneIfStruct(x)`), and the reference counter is told about the swap once (`if isStruct {
+// refs.Remove(x); refs.Add(c) }`). From then on the counter knows c, not x: any later refs.Add/Remove of x in the
+// same function counts the original a second time (it may still be held elsewhere) and never the clone.
+func ruleCloneSupersedes(c *Ctx) {
+	pk := c.P.Pkg("pkg/vm")
+	if pk == nil {
+		c.Lost("anchor", "package vm not found")
+		return
+	}
+	info := pk.TypesInfo
+	n := 0
+	for _, fd := range c.P.AllFuncDecls() {
+		if fd.Pkg != pk || fd.Decl.Body == nil {
+			continue
+		}
+		f := c.P.NewFuncCFG(fd)
+		idx := 0
+		ast.Inspect(fd.Decl.Body, func(x ast.Node) bool {
+			as, ok := x.(*ast.AssignStmt)
+			if !ok || len(as.Rhs) != 1 || len(as.Lhs) != 2 {
+				return true
+			}
+			call, ok := as.Rhs[0].(*ast.CallExpr)
+			if !ok || f.calleeSym(call) != "pkg/vm.cloneIfStruct" || len(call.Args) != 1 {
+				return true
+			}
+			orig, ok := ast.Unparen(call.Args[0]).(*ast.Ident)
+			if !ok {
+				return true
+			}
+			flagID, _ := as.Lhs[1].(*ast.Ident)
+			if flagID == nil || flagID.Name == "_" {
+				return true // no swap in this function: the clone is counted afresh (referenced compound)
+			}
+			oo, fo := info.ObjectOf(orig), info.ObjectOf(flagID)
+			n++
+			idx++
+			key := fmt.Sprintf("%s.clone#%d", FuncKey(fd.Obj), idx)
+			var bad []string
+			// the innermost statement list the clone belongs to bounds the scope (an arm of the dispatch switch, a loop body)
+			var scope ast.Node = fd.Decl.Body
+			ast.Inspect(fd.Decl.Body, func(y ast.Node) bool {
+				switch b := y.(type) {
+				case *ast.CaseClause:
+					if containsNode(b, as) {
+						scope = b
+					}
+				case *ast.BlockStmt:
+					if containsNode(b, as) && b != fd.Decl.Body {
+						if _, isLoop := enclosingLoop(fd.Decl.Body, b); isLoop {
+							scope = b
+						}
+					}
+				}
+				return true
+			})
+			ast.Inspect(scope, func(y ast.Node) bool {
+				rc, ok := y.(*ast.CallExpr)
+				if !ok || rc.Pos() <= as.End() {
+					return true
+				}
+				cs := f.calleeSym(rc)
+				if !strings.HasPrefix(cs, "pkg/vm.(*refCounter).") || len(rc.Args) != 1 {
+					return true
+				}
+				a, ok := ast.Unparen(rc.Args[0]).(*ast.Ident)
+				if !ok || info.ObjectOf(a) != oo {
+					return true
+				}
+				// allowed: Remove(x) directly under `if isStruct`
+				allowed := false
+				if strings.HasSuffix(cs, ".Remove") {
+					ast.Inspect(scope, func(z ast.Node) bool {
+						is, ok := z.(*ast.IfStmt)
+						if !ok || !containsNode(is.Body, rc) {
+							return true
+						}
+						if id, ok := ast.Unparen(is.Cond).(*ast.Ident); ok && info.ObjectOf(id) == fo {
+							allowed = true
+						}
+						return true
+					})
+				}
+				if !allowed {
+					bad = append(bad, c.P.Pos(rc.Pos()))
+				}
+				return true
+			})
+			if len(bad) > 0 {
+				c.Fail(key, c.P.Pos(as.Pos()), fmt.Sprintf("%s: after `%s` was superseded by its clone the reference counter is still given the original at %s: the original (possibly held elsewhere) is released twice and the clone never", FuncKey(fd.Obj), orig.Name, strings.Join(bad, ", ")))
+			} else {
+				c.OK(key, c.P.Pos(as.Pos()), "after the swap only the clone is reported to the reference counter")
+			}
+			return true
+		})
+	}
+	c.Floor("struct-clone swaps", n, 2)
+}
+
+// enclosingLoop: is blk the body of a for/range statement inside root?
+func enclosingLoop(root ast.Node, blk *ast.BlockStmt) (ast.Stmt, bool) {
+	var found ast.Stmt
+	ast.Inspect(root, func(y ast.Node) bool {
+		switch l := y.(type) {
+		case *ast.ForStmt:
+			if l.Body == blk {
+				found = l
+			}
+		case *ast.RangeStmt:
+			if l.Body == blk {
+				found = l
+			}
+		}
+		return found == nil
+	})
+	return found, found != nil
+}
